@@ -1,13 +1,17 @@
 #!/bin/bash
-# usage: try_mutant.sh <patch.diff> <check> [<check> ...]   (applies to /repo, runs quick checks, reverts)
+# usage: try_mutant.sh <patch.diff> <check> [<check> ...]
+# Applies the patch in a scratch worktree of /repo (outside /repo and /verif), runs the checks against
+# that worktree (VERIF_REPO), removes the worktree. /repo itself is never touched.
 P=$1; shift
+WT=/tmp/tm/$$
+mkdir -p /tmp/tm
+git -C /repo worktree add -q --detach "$WT" HEAD || exit 2
+trap 'git -C /repo worktree remove --force "$WT" 2>/dev/null; rm -rf "$WT"' EXIT
+if ! git -C "$WT" apply "$P" 2>/dev/null; then echo "PATCH DOES NOT APPLY: $P"; exit 3; fi
 cd /verif
-if ! git -C /repo apply --check "$P" 2>/dev/null; then echo "PATCH DOES NOT APPLY: $P"; exit 3; fi
-git -C /repo apply "$P"
 for c in "$@"; do
-  out=$(timeout 2400 ./check $c ${TIER:-quick} 2>&1)
+  out=$(VERIF_REPO="$WT" timeout 3000 ./check $c ${TIER:-quick} 2>&1)
   rc=$?
   echo "[$c rc=$rc] $(echo "$out" | grep -c '^VIOLATION') violation lines; $(echo "$out" | tail -1)"
   echo "$out" | grep 'what:' | head -3 | cut -c1-300
 done
-git -C /repo checkout -- .
